@@ -358,6 +358,8 @@ pub fn inject_one(rng: &mut Rng, ix: &SchemaIx, base: &ExecDoc, which: usize) ->
             done!("R6", format!("unknown-argument|field|{}", site.label()), &["UnknownArgument", "ArgumentsNotNeeded"]);
         }
         7 => {
+            let drop_all = rng.coin();
+            let mut how = "required-argument-missing";
             let site = mutate_nth(
                 &mut doc,
                 ix,
@@ -367,13 +369,19 @@ pub fn inject_one(rng: &mut Rng, ix: &SchemaIx, base: &ExecDoc, which: usize) ->
                     if let Sel::Field(f) = s {
                         let d = ix.field(p, &f.name.s).unwrap();
                         let req: Vec<String> = d.args.iter().filter(|a| a.ty.is_non_null() && a.default.is_none()).map(|a| a.name.s.clone()).collect();
-                        let victim = req[0].clone();
-                        f.args.retain(|(k, _)| k.s != victim);
+                        if req.len() >= 2 && drop_all {
+                            // every required argument at once: several diagnostics anchored at one and the same position
+                            f.args.retain(|(k, _)| !req.contains(&k.s));
+                            how = "all-required-arguments-missing";
+                        } else {
+                            let victim = req[0].clone();
+                            f.args.retain(|(k, _)| k.s != victim);
+                        }
                     }
                 },
             )?;
             // removing an argument may orphan a variable: that is not an implemented rule
-            done!("R7", format!("required-argument-missing|{}", site.label()), &["RequiredArgumentNotSpecified"]);
+            done!("R7", format!("{how}|{}", site.label()), &["RequiredArgumentNotSpecified"]);
         }
         8 | 9 | 10 | 11 | 12 => {
             // R8 family: a literal that does not fit
